@@ -80,7 +80,7 @@ def main(argv=None):
         inconclusive.append(("driver", "internal error"))
 
     wall = time.time() - t0
-    for k in known_hits:
+    for k in sorted(set(known_hits)):
         print(f"KNOWN-FINDING: property={prop} {k}")
     for v in violations:
         print(f"VIOLATION property={prop} replay={v['path']}")
